@@ -253,6 +253,10 @@ func (r *Repository) CreateSubtreeFromUpstreamRepository(upstream *Repository, u
 		// Create list of TreeEntry objects representing all blobs except those
 		// currently under localPath
 		for filePath, blobID := range currentFiles {
+			if filePath == strings.TrimSuffix(localPath, "/") {
+				// A file at localPath itself is replaced by the subtree
+				continue
+			}
 			if !strings.HasPrefix(filePath, localPath) {
 				entries = append(entries, NewEntryBlob(filePath, blobID))
 			}
